@@ -98,6 +98,8 @@ pub fn parse_action(s: &str) -> Option<Action> {
         "ArmFetch" => Action::ArmFetch(n(0)?),
         "Fetched" => Action::Fetched(n(0)?),
         "Settle" => Action::Settle,
+        "LockTick" => Action::LockTick,
+        "LockDeliver" => Action::LockDeliver,
         "Settle0" => Action::Settle0(n(0)?),
         "Isolate" => Action::Isolate(n(0)?),
         "DropAll" => Action::DropAll,
@@ -166,6 +168,11 @@ pub fn run_replay(file: &str) -> i32 {
         eprintln!("unknown scenario {}", name);
         return 2;
     };
+    let mut sc = sc;
+    let prop0 = j["property"].as_str().unwrap_or("");
+    if plan::clone_checks_for(prop0) {
+        sc.clone_checks = true;
+    }
     let sc = scen::leak(sc);
     let mut path = vec![];
     for a in j["actions"].as_array().cloned().unwrap_or_default() {
@@ -177,8 +184,9 @@ pub fn run_replay(file: &str) -> i32 {
             }
         }
     }
-    let r1 = replay(sc, &path, true);
-    let r2 = replay(sc, &path, false);
+    let hook = plan::state_hook_for(prop0, name);
+    let r1 = replay(sc, &path, true, hook);
+    let r2 = replay(sc, &path, false, hook);
     for l in &r1.trace {
         println!("{}", l);
     }
@@ -288,6 +296,10 @@ pub fn run_check(prop: &'static str, tier: &str, threads: usize, seed: u64) -> i
             eprintln!("machinery: unknown scenario {}", name);
             return 2;
         };
+        let mut sc = sc;
+        if plan::clone_checks_for(prop) {
+            sc.clone_checks = true;
+        }
         let sc = scen::leak(sc);
         let cfg = RunCfg {
             threads,
@@ -332,7 +344,7 @@ pub fn run_check(prop: &'static str, tier: &str, threads: usize, seed: u64) -> i
                 continue;
             }
             violations += 1;
-            let short = shrink(sc, &f.path, f.v.prop, &f.v.kind);
+            let short = shrink(sc, &f.path, f.v.prop, &f.v.kind, cfg.state_hook);
             let file = write_replay(prop, name, *level, &short, &f.v);
             println!("  {} [{}] x{}: {}", prop, f.v.kind, f.count, f.v.detail);
             println!("VIOLATION property={} replay={}", prop, file);
